@@ -242,6 +242,7 @@ class Interp:
             ts = {tv for tv, _ in self.test(e, env)}
             return C(ts.pop()) if len(ts) == 1 else K("bool")
         if isinstance(e, (ast.ListComp, ast.GeneratorExp)):
+            self.__dict__.setdefault("_comps", {})[norm(e)] = e        # so that a join over the local that holds it can read it
             return K("list", tag=("comp", norm(e)))
         if isinstance(e, ast.UnaryOp) and isinstance(e.op, (ast.USub, ast.UAdd)):
             v = self.ev(e.operand, env)
@@ -276,6 +277,10 @@ class Interp:
         if isinstance(f, ast.Attribute) and name == "join" and len(e.args) == 1:
             sep = self.ev(f.value, env)
             a = e.args[0]
+            if isinstance(a, ast.Name):
+                v_ = env.get(a.id)
+                if isinstance(v_, K) and isinstance(v_.tag, tuple) and len(v_.tag) == 2 and v_.tag[0] == "comp" and v_.tag[1] in self.__dict__.get("_comps", {}):
+                    a = self._comps[v_.tag[1]]          # the comprehension the local was bound to
             if isinstance(a, (ast.GeneratorExp, ast.ListComp)) and len(a.generators) == 1:
                 g = a.generators[0]
                 tgt = norm(g.target)
@@ -437,8 +442,13 @@ class Interp:
                         env["@events"] = env.get("@events", ()) + (("store", norm(t.value), self.ev(t.slice, env), v, st),)
             for t in st.targets:
                 if isinstance(t, (ast.Tuple, ast.List)):
-                    for x in t.elts:
-                        env = self.assign(x, TOP, env)
+                    if isinstance(st.value, (ast.Tuple, ast.List)) and len(st.value.elts) == len(t.elts) and not any(isinstance(x, ast.Starred) for x in list(t.elts) + list(st.value.elts)):
+                        vals_ = [self.ev(y, env) for y in st.value.elts]       # a, b = (x, y): position-wise, right side evaluated first
+                        for x, y in zip(t.elts, vals_):
+                            env = self.assign(x, y, env)
+                    else:
+                        for x in t.elts:
+                            env = self.assign(x, TOP, env)
                 else:
                     env = self.assign(t, v, env)
             return [Outcome("fall", env)]
